@@ -2,6 +2,7 @@
    Statements are about [step]/[run_ops] of C11/Model.v, i.e. the BV
    interpreter applied to the method bodies translated from the current
    security/counter.go (Gen/GenCounter.v). *)
+From NV Require C19.Globals.
 From NV Require Import Lib.Base Lib.BV Gen.GenCounter C11.Model C11.Proofs.
 Open Scope N_scope.
 
@@ -44,9 +45,18 @@ Example C11_example :
   = Ok (16776960, [RNone; RVal 0; RNone; RNone; RVal 1; RVal 0; RNone; RVal 16776960]).
 Proof. vm_compute. reflexivity. Qed.
 
+(* the functions this property is about are functions of their arguments: the files it is anchored in declare
+   no package-level variable other than the pinned read-only tables (or a never-touched one of plain type) and
+   none of their functions writes, slices, takes the address of, passes on or calls a method of a
+   package-level variable (logger entries excepted) -- evaluated on the current source (C19/Globals.v) *)
+Theorem C11_anchor_files_keep_no_state :
+  Globals.hidden_state_free Globals.anchors_C11 = true.
+Proof. vm_compute. reflexivity. Qed.
+
 Print Assumptions C11_translation_complete.
 Print Assumptions C11_inv_init.
 Print Assumptions C11_value.
 Print Assumptions C11_step.
 Print Assumptions C11_histories.
 Print Assumptions C11_addone.
+Print Assumptions C11_anchor_files_keep_no_state.
